@@ -134,6 +134,9 @@ type Outcome struct {
 	Panicked bool
 	PanicVal string
 	Stack    string
+	// Leak is set when the call ran in a fake-clock bubble and goroutines it started were still blocked
+	// after it returned (the bubble's deadlock report).
+	Leak string
 }
 
 // Accepted means: returned nil and did not panic.
